@@ -29,7 +29,7 @@ RULE = ("victims sow / re-sow / grow(i) / Crop.grow(subset) / grow_missing / rea
         "point) is one execution; all are non-trivial")
 ASSUMPTIONS = [
     "kill = process death at a Python-level file operation boundary (no reordering of completed writes, no power loss, no NFS)",
-    "HDF5 writes happen below Python: their crash points are 'before create/truncate', 'created but not closed' and 'closed'",
+    "HDF5 writes happen below Python: at the Python level their crash points are 'before create/truncate', 'created but not closed' and 'closed'; the syscall-level strace injection (SIGKILL at the entry of every open/write/pwrite/ftruncate/close/rename/unlink on the data file and its temporary sibling) covers what happens in between",
     "the recovery is given the function / farmer again when it has to re-sow (as a user re-running the sow script would)",
     "only the harvester's dataset is required to survive; the sampler's table is observed, not judged",
 ]
@@ -43,6 +43,7 @@ MIN_REACH = {
     "recoveries_exact": {"quick": 450, "thorough": 4000},
     "harvester_file_checked": {"quick": 40, "thorough": 400},
     "partial_write_states": {"quick": 100, "thorough": 1000},
+    "syscall_crash_points": {"quick": 8, "thorough": 60},
 }
 TIME_BUDGET = {"quick": 500, "thorough": 3400}
 CASE_TIMEOUT = {"quick": 400, "thorough": 1200}
@@ -71,6 +72,15 @@ def cases(ctx):
                 yield {"farmer": farmer, "victim": victim, "n": 4, "bs": 1, "shuffle": [True, False, 7][idx % 3],
                        "grown": [2, 3] if victim.startswith("grow") else [], "idx": idx, "depth2": 0, "part": [part, 2]}
             idx += 1
+    # syscall-level cross-check (strace fault injection) of the files that are written below Python (HDF5)
+    # or by pandas: the victim runs in a fresh interpreter and is SIGKILLed at the entry of its k-th
+    # open/write/pwrite/ftruncate/close/rename/unlink on the data file or its temporary sibling
+    SP = ctx.pick(8, 16)
+    for farmer in (("harvester",) if ctx.quick else ("harvester", "sampler", "harvester")):
+        for part in range(SP):
+            yield {"strace": True, "farmer": farmer, "victim": "reap", "n": 4 if ctx.quick else 6, "bs": 2, "shuffle": bool(idx % 2),
+                   "grown": [], "idx": idx, "depth2": 0, "part": [part, SP], "max_points": ctx.pick(3, 1000)}
+        idx += 1
     if not ctx.quick:
         rng = ctx.rng("var")
         for rep in range(9):
@@ -311,7 +321,90 @@ def setup(ctx):
     ctx.rmtree(root)
 
 
+SYSCALLS = "openat,open,creat,write,pwrite64,writev,pwritev,ftruncate,truncate,close,rename,renameat,renameat2,unlink,unlinkat,fsync,fdatasync"
+
+
+def run_strace_case(ctx, case):
+    import re
+    import sys
+    import json
+    import subprocess
+    root = ctx.mkdtemp("c10s")
+    side = ctx.mkdtemp("c10t")
+    sig = {"api": "crash-syscall", "farmer": case["farmer"], "victim": case["victim"]}
+    st, v = crash.run_forked(lambda: _setup(case, root))
+    if st != "ok":
+        raise AssertionError("scenario set-up failed: %r %r" % (st, v))
+    pre = crash.snap(root)
+    if case["farmer"] == "harvester":
+        paths = [os.path.join(root, "harvest.h5"), os.path.join(root, "harvest.h5.tmp")]
+    else:
+        paths = [os.path.join(root, "samples.pkl"), os.path.join(root, ".tmp-samples.pkl")]
+    spec = os.path.join(side, "spec.json")
+    with open(spec, "w") as f:
+        json.dump({"op": "reap", "name": NAME, "parent": root, "out": os.path.join(side, "out.pkl")}, f)
+    trace = os.path.join(side, "trace.txt")
+
+    def run(inject=None):
+        cmd = ["strace", "-f", "-qq", "-o", trace, "-e", "trace=" + SYSCALLS]
+        if inject:
+            cmd += ["-e", "inject=%s:signal=SIGKILL:when=%d" % inject]
+        for p_ in paths:
+            cmd += ["-P", p_]
+        cmd += [sys.executable, "-m", "vf.actor", spec]
+        try:
+            r = subprocess.run(cmd, stdout=subprocess.DEVNULL, stderr=subprocess.PIPE, timeout=300,
+                               env=dict(os.environ, VERIF_CHILD="1"))
+            return r.returncode, r.stderr.decode(errors="replace")[-300:]
+        except subprocess.TimeoutExpired:
+            return "timeout", ""
+    rc, err = run()
+    if rc != 0:
+        ctx.inconclusive_reason("strace run of the uninjured victim failed: rc=%r %s" % (rc, err))
+        ctx.rmtree(root)
+        ctx.rmtree(side)
+        return
+    counts = {}
+    for line in open(trace):
+        m = re.match(r"^\d+\s+(\w+)\(", line)
+        if m:
+            counts[m.group(1)] = counts.get(m.group(1), 0) + 1
+    points = [(name, k) for name in sorted(counts) for k in range(1, counts[name] + 1)]
+    part, nparts = case["part"]
+    mine = [pt for i, pt in enumerate(points) if i % nparts == part][:case["max_points"]]
+    ctx.counters["max_syscalls_on_data_file"] = max(ctx.counters.get("max_syscalls_on_data_file", 0), len(points))
+    for (name, k) in mine:
+        crash.restore(root, pre)
+        rc, err = run((name, k))
+        sub = dict(case, syscall=name, ordinal=k)
+        if rc not in (137, -9):
+            ctx.count("strace_injection_not_reached")
+            continue
+        ctx.count("syscall_crash_points")
+        ctx.seen("syscall_kinds", name)
+        state = crash.snap(root)
+        bad = []
+        if case["farmer"] == "harvester":
+            st3, d3 = crash.run_forked(lambda: _harvester_file_has(root, [100, 101]))
+            ctx.count("harvester_file_checked")
+            if st3 != "ok" or d3 is not None:
+                bad.append(("harvester-data-survives", "after SIGKILL at %s #%d on the data file: %s" % (name, k, d3 if st3 == "ok" else (st3, d3))))
+        crash.restore(root, state)
+        st2, r2 = crash.run_forked(lambda: _recover(case, root))
+        if st2 != "ok" or r2[0] != "exact":
+            bad.append(("recovery", "SIGKILL at %s #%d on the data file; documented recovery: %r" % (name, k, r2 if st2 == "ok" else (st2, r2))))
+        else:
+            ctx.count("recoveries_exact")
+        for o, msg in bad[:2]:
+            ctx.violation(sub, msg, dict(sig, oracle=o, crash_op=name))
+        ctx.observe(sub, key=("strace", case["idx"], name, k), info={"syscall": name, "ordinal": k, "files_left": sorted(state)[:6]})
+    ctx.rmtree(root)
+    ctx.rmtree(side)
+
+
 def run_case(ctx, case):
+    if case.get("strace"):
+        return run_strace_case(ctx, case)
     root = ctx.mkdtemp("c10")
     sig = {"api": "crash", "farmer": case["farmer"], "victim": case["victim"]}
     st, v = crash.run_forked(lambda: _setup(case, root))
